@@ -14,6 +14,8 @@ func vhStartWorld() (*vhWorld, int) {
 	n := verifrt.Cfg("n")
 	m := verifrt.Cfg("m")
 	w := vhNewWorld(n, verifrt.Cfg("M"), m, false)
+	// every rule set: startGame builds the hand options differently for each
+	w.te.table.Meta.Rule = vhPick("start.rule", []string{CompetitionRule_Default, CompetitionRule_ShortDeck, CompetitionRule_Omaha})
 	for i, p := range w.te.table.State.PlayerStates {
 		p.Positions = []string{}
 		for k, pos := range vhAllPositions {
@@ -183,5 +185,17 @@ func VH_C15_RoundClosed() {
 	te.table.State.CurrentActionEndAt = verifrt.Int64("endat2")
 	g.onGameRoundClosed(&pokerface.GameState{})
 	verifrt.Assert(te.table.State.CurrentActionEndAt == 0, "deadline cleared when the betting round closes")
+
+	// the same through the game's own state handling, whether or not the automatic advance
+	// to the next round succeeds (the backend may fail right there)
+	te.table.State.CurrentActionEndAt = verifrt.Int64("endat3")
+	w.bk.faults = true
+	w.bk.tagN = 1
+	closed := vhArbitraryGS("rc", w.bk.m)
+	closed.Status.CurrentEvent = "RoundClosed"
+	verifrt.Assume(closed.Status.CurrentPlayer >= 0)
+	g.gs = closed
+	g.handleGameState(closed)
+	verifrt.Assert(te.table.State.CurrentActionEndAt == 0, "a closed betting round clears the deadline even when the advance to the next round fails")
 	verifrt.Reach("end")
 }
